@@ -68,7 +68,14 @@ class GeckoSnapshot:
                 self._re_config_and_log,
             ),
             # Match "STATV\x15\x16'\x00\x00\x00\x00\x00\x00\x00\x00\x00\x00\x00\x00\x00\x00\x00\x00\x00\x00\x00\x00\x00\x00\x00\x00\x00\x00\x00\x00\x00\x00\x00\x00\x00\x00\x00\x00\x00\x00\x00</DATAS>"  # noqa: E501
-            (r"(STATV.*)</DATAS>", self._re_data_segment),
+            # Only the datagram as received off the wire counts. The same payload is
+            # logged again once unwrapped, and would match too if it happened to
+            # contain the closing tag
+            (
+                r"<PACKT><SRCCN>.*?</SRCCN><DESCN>.*?</DESCN>"
+                r"<DATAS>(STATV.*)</DATAS></PACKT>",
+                self._re_data_segment,
+            ),
         ]
 
     def _re_snapshot(self, groups):
